@@ -88,6 +88,7 @@ def read_range():
     return Contract(
         path=FS,
         qualname='AsyncFS.read_range',
+        opaque_methods=True,
         types={'url': 'U', 'start': 'int', 'end': 'int', 'end_inclusive': 'bool'},
         calls={'with:self.open_from': with_model(enter, exit_), 'f.readexactly': readexactly},
         ghost_init={'n_open': '0', 'n_close': '0', 'n_read': '0', 'open_url': 'NOEXC', 'open_start': '0 - 1', 'open_length': '0 - 1', 'read_n': '0 - 1', 'last_ok': 'NOEXC', 'last_exc': 'NOEXC'},
@@ -128,6 +129,7 @@ def read_from():
     return Contract(
         path=FS,
         qualname='AsyncFS.read_from',
+        opaque_methods=True,
         types={'url': 'U', 'start': 'int'},
         calls={'with:self.open_from': with_model(enter, lambda eng, st, exc: [(st, None)]), 'f.read': read},
         ghost_init={'n_open': '0', 'n_read': '0', 'open_url': 'NOEXC', 'open_start': '0 - 1', 'open_has_length': 'False', 'read_all': 'False', 'last_ok': 'NOEXC'},
